@@ -157,26 +157,26 @@ func (gp *GenginePool) getGengine() (*gengineWrapper, error) {
 	for {
 		gp.getEngineLock.Lock()
 		//check if there has enough resource in pool
-		numFree := len(gp.freeGengines)
-		if numFree > 0 {
-			gp.runningLock.Lock()
+		gp.runningLock.Lock()
+		if len(gp.freeGengines) > 0 {
 			gw := gp.freeGengines[0]
 			gp.freeGengines = gp.freeGengines[1:]
 			gp.runningLock.Unlock()
 			gp.getEngineLock.Unlock()
 			return gw, nil
 		}
+		gp.runningLock.Unlock()
 
 		//check if there has addition resource
-		numAddition := len(gp.additionGengines)
-		if numAddition > 0 {
-			gp.additionLock.Lock()
+		gp.additionLock.Lock()
+		if len(gp.additionGengines) > 0 {
 			gw := gp.additionGengines[0]
 			gp.additionGengines = gp.additionGengines[1:]
 			gp.additionLock.Unlock()
 			gp.getEngineLock.Unlock()
 			return gw, nil
 		}
+		gp.additionLock.Unlock()
 
 		gp.getEngineLock.Unlock()
 	}
@@ -456,7 +456,16 @@ func (gp *GenginePool) SetExecModel(execModel int) error {
 
 //get the execute model the user set
 func (gp *GenginePool) GetExecModel() int {
+	gp.updateLock.Lock()
+	defer gp.updateLock.Unlock()
 	return gp.execModel
+}
+
+//whether the rules have been cleared
+func (gp *GenginePool) isCleared() bool {
+	gp.updateLock.Lock()
+	defer gp.updateLock.Unlock()
+	return gp.clear
 }
 
 //check the rule whether exist
@@ -584,7 +593,7 @@ func (gp *GenginePool) ExecuteRulesWithSpecifiedEM(reqName string, req interface
 
 	returnResultMap := make(map[string]interface{})
 	//rules has bean cleared
-	if gp.clear {
+	if gp.isCleared() {
 		//no data to execute rule
 		return nil, returnResultMap
 	}
@@ -599,26 +608,27 @@ func (gp *GenginePool) ExecuteRulesWithSpecifiedEM(reqName string, req interface
 		gp.putGengineLocked(gw)
 	}()
 
-	if gp.execModel == SortModel { //sort
+	execModel := gp.GetExecModel()
+	if execModel == SortModel { //sort
 		// when some rule execute error ,it will continue to execute last
 		e := gw.gengine.Execute(gw.rulebuilder, true)
 		returnResultMap, _ = gw.gengine.GetRulesResultMap()
 		return e, returnResultMap
 	}
 
-	if gp.execModel == ConcurrentModel { //concurrent
+	if execModel == ConcurrentModel { //concurrent
 		e := gw.gengine.ExecuteConcurrent(gw.rulebuilder)
 		returnResultMap, _ = gw.gengine.GetRulesResultMap()
 		return e, returnResultMap
 	}
 
-	if gp.execModel == MixModel { //mix
+	if execModel == MixModel { //mix
 		e := gw.gengine.ExecuteMixModel(gw.rulebuilder)
 		returnResultMap, _ = gw.gengine.GetRulesResultMap()
 		return e, returnResultMap
 	}
 
-	if gp.execModel == InverseMixModel { // inverse mix model
+	if execModel == InverseMixModel { // inverse mix model
 		e := gw.gengine.ExecuteInverseMixModel(gw.rulebuilder)
 		returnResultMap, _ = gw.gengine.GetRulesResultMap()
 		return e, returnResultMap
@@ -637,7 +647,7 @@ func (gp *GenginePool) ExecuteRulesWithMultiInputWithSpecifiedEM(data map[string
 
 	returnResultMap := make(map[string]interface{})
 	//rules has bean cleared
-	if gp.clear {
+	if gp.isCleared() {
 		//no data to execute rule
 		return nil, returnResultMap
 	}
@@ -652,26 +662,27 @@ func (gp *GenginePool) ExecuteRulesWithMultiInputWithSpecifiedEM(data map[string
 		gp.putGengineLocked(gw)
 	}()
 
-	if gp.execModel == SortModel { //sort
+	execModel := gp.GetExecModel()
+	if execModel == SortModel { //sort
 		// when some rule execute error ,it will continue to execute last
 		e := gw.gengine.Execute(gw.rulebuilder, true)
 		returnResultMap, _ = gw.gengine.GetRulesResultMap()
 		return e, returnResultMap
 	}
 
-	if gp.execModel == ConcurrentModel { //concurrent
+	if execModel == ConcurrentModel { //concurrent
 		e := gw.gengine.ExecuteConcurrent(gw.rulebuilder)
 		returnResultMap, _ = gw.gengine.GetRulesResultMap()
 		return e, returnResultMap
 	}
 
-	if gp.execModel == MixModel { //mix
+	if execModel == MixModel { //mix
 		e := gw.gengine.ExecuteMixModel(gw.rulebuilder)
 		returnResultMap, _ = gw.gengine.GetRulesResultMap()
 		return e, returnResultMap
 	}
 
-	if gp.execModel == InverseMixModel { // inverse mix model
+	if execModel == InverseMixModel { // inverse mix model
 		e := gw.gengine.ExecuteInverseMixModel(gw.rulebuilder)
 		returnResultMap, _ = gw.gengine.GetRulesResultMap()
 		return e, returnResultMap
@@ -690,7 +701,7 @@ func (gp *GenginePool) ExecuteSelectedWithSpecifiedEM(data map[string]interface{
 
 	returnResultMap := make(map[string]interface{})
 	//rules has bean cleared
-	if gp.clear {
+	if gp.isCleared() {
 		//no data to execute rule
 		return nil, returnResultMap
 	}
@@ -705,25 +716,26 @@ func (gp *GenginePool) ExecuteSelectedWithSpecifiedEM(data map[string]interface{
 		gp.putGengineLocked(gw)
 	}()
 
-	if gp.execModel == SortModel {
+	execModel := gp.GetExecModel()
+	if execModel == SortModel {
 		e = gw.gengine.ExecuteSelectedRules(gw.rulebuilder, names)
 		returnResultMap, _ = gw.gengine.GetRulesResultMap()
 		return e, returnResultMap
 	}
 
-	if gp.execModel == ConcurrentModel {
+	if execModel == ConcurrentModel {
 		e = gw.gengine.ExecuteSelectedRulesConcurrent(gw.rulebuilder, names)
 		returnResultMap, _ = gw.gengine.GetRulesResultMap()
 		return e, returnResultMap
 	}
 
-	if gp.execModel == MixModel {
+	if execModel == MixModel {
 		e = gw.gengine.ExecuteSelectedRulesMixModel(gw.rulebuilder, names)
 		returnResultMap, _ = gw.gengine.GetRulesResultMap()
 		return e, returnResultMap
 	}
 
-	if gp.execModel == InverseMixModel {
+	if execModel == InverseMixModel {
 		e = gw.gengine.ExecuteSelectedRulesInverseMixModel(gw.rulebuilder, names)
 		returnResultMap, _ = gw.gengine.GetRulesResultMap()
 		return e, returnResultMap
@@ -736,7 +748,7 @@ func (gp *GenginePool) ExecuteSelectedWithSpecifiedEM(data map[string]interface{
 func (gp *GenginePool) Execute(data map[string]interface{}, b bool) (error, map[string]interface{}) {
 	returnResultMap := make(map[string]interface{})
 	//rules has bean cleared
-	if gp.clear {
+	if gp.isCleared() {
 		//no data to execute rule
 		return nil, returnResultMap
 	}
@@ -761,7 +773,7 @@ func (gp *GenginePool) ExecuteWithStopTagDirect(data map[string]interface{}, b b
 
 	returnResultMap := make(map[string]interface{})
 	//rules has bean cleared
-	if gp.clear {
+	if gp.isCleared() {
 		//no data to execute rule
 		return nil, returnResultMap
 	}
@@ -785,7 +797,7 @@ func (gp *GenginePool) ExecuteWithStopTagDirect(data map[string]interface{}, b b
 func (gp *GenginePool) ExecuteConcurrent(data map[string]interface{}) (error, map[string]interface{}) {
 	returnResultMap := make(map[string]interface{})
 	//rules has bean cleared
-	if gp.clear {
+	if gp.isCleared() {
 		//no data to execute rule
 		return nil, returnResultMap
 	}
@@ -809,7 +821,7 @@ func (gp *GenginePool) ExecuteConcurrent(data map[string]interface{}) (error, ma
 func (gp *GenginePool) ExecuteMixModel(data map[string]interface{}) (error, map[string]interface{}) {
 	returnResultMap := make(map[string]interface{})
 	//rules has bean cleared
-	if gp.clear {
+	if gp.isCleared() {
 		//no data to execute rule
 		return nil, returnResultMap
 	}
@@ -833,7 +845,7 @@ func (gp *GenginePool) ExecuteMixModel(data map[string]interface{}) (error, map[
 func (gp *GenginePool) ExecuteMixModelWithStopTagDirect(data map[string]interface{}, sTag *Stag) (error, map[string]interface{}) {
 	returnResultMap := make(map[string]interface{})
 	//rules has bean cleared
-	if gp.clear {
+	if gp.isCleared() {
 		//no data to execute rule
 		return nil, returnResultMap
 	}
@@ -858,7 +870,7 @@ func (gp *GenginePool) ExecuteMixModelWithStopTagDirect(data map[string]interfac
 func (gp *GenginePool) ExecuteSelectedRules(data map[string]interface{}, names []string) (error, map[string]interface{}) {
 	returnResultMap := make(map[string]interface{})
 	//rules has bean cleared
-	if gp.clear {
+	if gp.isCleared() {
 		//no data to execute rule
 		return nil, returnResultMap
 	}
@@ -882,7 +894,7 @@ func (gp *GenginePool) ExecuteSelectedRules(data map[string]interface{}, names [
 func (gp *GenginePool) ExecuteSelectedRulesWithControl(data map[string]interface{}, b bool, names []string) (error, map[string]interface{}) {
 	returnResultMap := make(map[string]interface{})
 	//rules has bean cleared
-	if gp.clear {
+	if gp.isCleared() {
 		//no data to execute rule
 		return nil, returnResultMap
 	}
@@ -906,7 +918,7 @@ func (gp *GenginePool) ExecuteSelectedRulesWithControl(data map[string]interface
 func (gp *GenginePool) ExecuteSelectedRulesWithControlAsGivenSortedName(data map[string]interface{}, b bool, sortedNames []string) (error, map[string]interface{}) {
 	returnResultMap := make(map[string]interface{})
 	//rules has bean cleared
-	if gp.clear {
+	if gp.isCleared() {
 		//no data to execute rule
 		return nil, returnResultMap
 	}
@@ -930,7 +942,7 @@ func (gp *GenginePool) ExecuteSelectedRulesWithControlAsGivenSortedName(data map
 func (gp *GenginePool) ExecuteSelectedRulesWithControlAndStopTag(data map[string]interface{}, b bool, sTag *Stag, names []string) (error, map[string]interface{}) {
 	returnResultMap := make(map[string]interface{})
 	//rules has bean cleared
-	if gp.clear {
+	if gp.isCleared() {
 		//no data to execute rule
 		return nil, returnResultMap
 	}
@@ -954,7 +966,7 @@ func (gp *GenginePool) ExecuteSelectedRulesWithControlAndStopTag(data map[string
 func (gp *GenginePool) ExecuteSelectedRulesWithControlAndStopTagAsGivenSortedName(data map[string]interface{}, b bool, sTag *Stag, sortedNames []string) (error, map[string]interface{}) {
 	returnResultMap := make(map[string]interface{})
 	//rules has bean cleared
-	if gp.clear {
+	if gp.isCleared() {
 		//no data to execute rule
 		return nil, returnResultMap
 	}
@@ -979,7 +991,7 @@ func (gp *GenginePool) ExecuteSelectedRulesConcurrent(data map[string]interface{
 
 	returnResultMap := make(map[string]interface{})
 	//rules has bean cleared
-	if gp.clear {
+	if gp.isCleared() {
 		//no data to execute rule
 		return nil, returnResultMap
 	}
@@ -1004,7 +1016,7 @@ func (gp *GenginePool) ExecuteSelectedRulesMixModel(data map[string]interface{},
 
 	returnResultMap := make(map[string]interface{})
 	//rules has bean cleared
-	if gp.clear {
+	if gp.isCleared() {
 		//no data to execute rule
 		return nil, returnResultMap
 	}
@@ -1029,7 +1041,7 @@ func (gp *GenginePool) ExecuteSelectedRulesMixModel(data map[string]interface{},
 func (gp *GenginePool) ExecuteInverseMixModel(data map[string]interface{}) (error, map[string]interface{}) {
 	returnResultMap := make(map[string]interface{})
 	//rules has bean cleared
-	if gp.clear {
+	if gp.isCleared() {
 		//no data to execute rule
 		return nil, returnResultMap
 	}
@@ -1055,7 +1067,7 @@ func (gp *GenginePool) ExecuteSelectedRulesInverseMixModel(data map[string]inter
 
 	returnResultMap := make(map[string]interface{})
 	//rules has bean cleared
-	if gp.clear {
+	if gp.isCleared() {
 		//no data to execute rule
 		return nil, returnResultMap
 	}
@@ -1080,7 +1092,7 @@ func (gp *GenginePool) ExecuteNSortMConcurrent(nSort, mConcurrent int, b bool, d
 
 	returnResultMap := make(map[string]interface{})
 	//rules has bean cleared
-	if gp.clear {
+	if gp.isCleared() {
 		//no data to execute rule
 		return nil, returnResultMap
 	}
@@ -1104,7 +1116,7 @@ func (gp *GenginePool) ExecuteNSortMConcurrent(nSort, mConcurrent int, b bool, d
 func (gp *GenginePool) ExecuteNConcurrentMSort(nSort, mConcurrent int, b bool, data map[string]interface{}) (error, map[string]interface{}) {
 	returnResultMap := make(map[string]interface{})
 	//rules has bean cleared
-	if gp.clear {
+	if gp.isCleared() {
 		//no data to execute rule
 		return nil, returnResultMap
 	}
@@ -1128,7 +1140,7 @@ func (gp *GenginePool) ExecuteNConcurrentMSort(nSort, mConcurrent int, b bool, d
 func (gp *GenginePool) ExecuteNConcurrentMConcurrent(nSort, mConcurrent int, b bool, data map[string]interface{}) (error, map[string]interface{}) {
 	returnResultMap := make(map[string]interface{})
 	//rules has bean cleared
-	if gp.clear {
+	if gp.isCleared() {
 		//no data to execute rule
 		return nil, returnResultMap
 	}
@@ -1153,7 +1165,7 @@ func (gp *GenginePool) ExecuteNConcurrentMConcurrent(nSort, mConcurrent int, b b
 func (gp *GenginePool) ExecuteSelectedNSortMConcurrent(nSort, mConcurrent int, b bool, names []string, data map[string]interface{}) (error, map[string]interface{}) {
 	returnResultMap := make(map[string]interface{})
 	//rules has bean cleared
-	if gp.clear {
+	if gp.isCleared() {
 		//no data to execute rule
 		return nil, returnResultMap
 	}
@@ -1178,7 +1190,7 @@ func (gp *GenginePool) ExecuteSelectedNConcurrentMSort(nSort, mConcurrent int, b
 
 	returnResultMap := make(map[string]interface{})
 	//rules has bean cleared
-	if gp.clear {
+	if gp.isCleared() {
 		//no data to execute rule
 		return nil, returnResultMap
 	}
@@ -1203,7 +1215,7 @@ func (gp *GenginePool) ExecuteSelectedNConcurrentMConcurrent(nSort, mConcurrent 
 
 	returnResultMap := make(map[string]interface{})
 	//rules has bean cleared
-	if gp.clear {
+	if gp.isCleared() {
 		//no data to execute rule
 		return nil, returnResultMap
 	}
@@ -1228,7 +1240,7 @@ func (gp *GenginePool) ExecuteDAGModel(dag [][]string, data map[string]interface
 
 	returnResultMap := make(map[string]interface{})
 	//rules has bean cleared
-	if gp.clear {
+	if gp.isCleared() {
 		//no data to execute rule
 		return nil, returnResultMap
 	}
